@@ -1107,6 +1107,10 @@ func (in Instance) Clone() Instance {
 
 // RandBPM is log-uniform over the representable range 4..60,000,000.
 func RandBPM(r *rand.Rand) uint64 {
+	if r.Intn(12) == 0 {
+		// the tempi a program is likely to hold as its default
+		return []uint64{100, 120, 60, 90}[r.Intn(4)]
+	}
 	switch r.Intn(10) {
 	case 0:
 		if r.Intn(2) == 0 {
